@@ -53,6 +53,10 @@ CHECKS = {
         technique='property-based testing: generated DAGs over a class hierarchy x selection parameters x operation; expected node set from an independent graph walk, recursive frame condition for replace',
         text='For generated DAGs (functions and Base<-Mid<-LeafCls/Other classes under Config and Partial, matches shared, nested in other matches and in containers), every F x match_subclasses x buildable_type, the selection must iterate exactly the reference identity set once each, set/get must touch exactly those nodes, replace (both deepcopy modes, also with v equal to a matching node) must put v at every reference to a match while every other Buildable keeps identity and arguments recursively from the root, replace on a root match must raise, and tag selections must yield value / default / NO_VALUE.',
         note='Trusted: harness/canon.walk, the matches() predicate and expect() recursion in props/c15.py.'),
+    'C16': dict(
+        technique='model-based (stateful) property testing: generated edit histories on two configurations, per-step invariants relating the history log to the observed stored state and to a nesting model of suspend_tracking',
+        text='Up to 40 generated operations (C03 edits incl. *args shifts, tag operations, TaggedValue assignment, assign, copy_with, materialize_defaults, update_callable, nested suspend enter/exit) on two configurations; after every step: exactly one NEW_VALUE entry per changed key holding the stored object or DELETED, none on the other configuration, nothing logged while suspended (own depth counter), last entries equal current value/tags, sequence ids fresh and increasing, entries located in the calling file, and finally history-independence of == and build. Location of tag-API entries is a listed known finding (pinned by an existing test).',
+        note='Trusted: snapshots of __arguments__/__argument_tags__ taken by the harness, harness/argmodel only for operand choice.'),
 }
 
 PENDING = {}
